@@ -41,7 +41,7 @@ bool doubles_equal(double d1, double d2, double threshold)
 
     if (PlatformSpecificIsInf(d1) && PlatformSpecificIsInf(d2))
     {
-        return true;
+        return (d1 > 0) == (d2 > 0); /* only the same infinity is equal */
     }
 
     return PlatformSpecificFabs(d1 - d2) <= threshold;
